@@ -253,13 +253,13 @@ pub fn run(ctx: &Ctx, model: &mut Model, rep: &mut Report) {
     let open: Vec<String> = known::open(ctx, "C12").iter().filter_map(|f| f.witness.get("label").and_then(|l| l.as_str()).map(|s| s.to_string())).collect();
     let classes = request_classes();
     let mut r = Rng::new(ctx.seed ^ 0xC12C);
-    let take = if ctx.thorough { classes.len() } else { 70 };
+    let take = if ctx.thorough { classes.len() } else { 110 };
     let mut idx: Vec<usize> = (0..classes.len()).collect();
     for i in (1..idx.len()).rev() {
         idx.swap(i, r.below(i + 1));
     }
     // the known-finding classes are always exercised
-    let mut chosen: Vec<usize> = idx.iter().cloned().filter(|i| open.iter().any(|o| classes[*i].0.starts_with(o.as_str())) || classes[*i].0.starts_with("rename-free/non-ascii-dangling") || ((classes[*i].0.contains("/headingless-") || classes[*i].0.contains("/unknown-file") || classes[*i].0.contains("/outside-library")) && classes[*i].0.matches('/').count() == 1) || classes[*i].0.starts_with("unknown-method") || classes[*i].0.starts_with("executeCommand/") || classes[*i].0 == "malformed-params").collect();
+    let mut chosen: Vec<usize> = idx.iter().cloned().filter(|i| open.iter().any(|o| classes[*i].0.starts_with(o.as_str())) || classes[*i].0.starts_with("rename-free/non-ascii-dangling") || ((classes[*i].0.contains("/headingless-") || classes[*i].0.contains("/unknown-file") || classes[*i].0.contains("/outside-library")) && classes[*i].0.matches('/').count() == 1) || classes[*i].0.starts_with("unknown-method") || classes[*i].0 == "codeActionResolve/kind/node1" || classes[*i].0 == "codeActionResolve/kind/missing" || classes[*i].0 == "codeActionResolve/kind/stale" || classes[*i].0.starts_with("executeCommand/") || classes[*i].0 == "malformed-params").collect();
     for i in idx {
         if chosen.len() >= take.max(chosen.len()) {
             break;
